@@ -59,7 +59,7 @@ fn main() {
         // (every rrtk call inside the sections is under panic capture already; the outer guard only
         // turns an escape into an observation instead of a dead process)
         let pwr = &pw;
-        let sections: [(&str, &dyn Fn(&mut Tr, &mut G)); 14] = [
+        let sections: [(&str, &dyn Fn(&mut Tr, &mut G)); 15] = [
             ("section.quantities", &scalars::quantities),
             ("section.states", &scalars::states),
             ("section.commands", &scalars::commands),
@@ -74,6 +74,7 @@ fn main() {
             ("section.two_terminal", &devices::two_terminal),
             ("section.three_terminal", &devices::three_terminal),
             ("section.wrappers", &devices::wrappers),
+            ("section.exact_points", &move |tr: &mut Tr, g: &mut G| streams::exact_points(tr, g, pwr)),
         ];
         for (name, f) in sections {
             guarded(&mut tr, name, |tr| f(tr, &mut g));
